@@ -13,8 +13,11 @@ import (
 	"path/filepath"
 	"regexp"
 	"runtime"
+	rtdbg "runtime/debug"
+	"runtime/metrics"
 	"sort"
 	"strings"
+	"sync"
 	"syscall"
 	"time"
 
@@ -525,3 +528,18 @@ func vfLineDiff(a, b string) string {
 	}
 	return strings.Join(out, "\n")
 }
+
+// ---- allocation meter -----------------------------------------------------------
+
+var vfAllocSample = []metrics.Sample{{Name: "/gc/heap/allocs:bytes"}}
+var vfAllocMu sync.Mutex
+
+// vfAllocs returns the cumulative bytes allocated by the process.
+func vfAllocs() uint64 {
+	vfAllocMu.Lock()
+	defer vfAllocMu.Unlock()
+	metrics.Read(vfAllocSample)
+	return vfAllocSample[0].Value.Uint64()
+}
+
+func vfStack() string { return string(rtdbg.Stack()) }
